@@ -10,9 +10,10 @@ ap.add_argument("prop"); ap.add_argument("k"); ap.add_argument("--tests", defaul
 ap.add_argument("--skip-check", action="store_true")
 ap.add_argument("--key", default="validated_by_integrator")
 ap.add_argument("--base", default="04de7e7", help="commit the seeded patch applies to (default: the pinned commit)")
+ap.add_argument("--src", default="", help="directory with patch.diff/demo.py/meta.json (default /tmp/seed_<id>_out/<k>)")
 a = ap.parse_args()
 pid, k = a.prop, a.k
-src = f"/tmp/seed_{pid.lower()}_out/{k}"
+src = a.src or f"/tmp/seed_{pid.lower()}_out/{k}"
 wt = f"/tmp/val_{pid.lower()}_{k}"
 subprocess.run(["git", "-C", "/repo", "worktree", "remove", "--force", wt], capture_output=True)
 subprocess.run(["git", "-C", "/repo", "worktree", "add", "--detach", wt, a.base], check=True, capture_output=True)
@@ -34,11 +35,11 @@ try:
         tests += sorted(glob.glob(os.path.join(wt, t))) if "*" in t else [os.path.join(wt, t)]
     tr = {}
     # baseline of the same test files on a pristine checkout in the same isolated environment (cached)
-    bfile = "/tmp/val_baseline.json"
+    bfile = "/tmp/val_baseline.json" if a.base == "04de7e7" else f"/tmp/val_baseline_{a.base}.json"
     base = json.load(open(bfile)) if os.path.exists(bfile) else {}
-    pr = "/tmp/val_pristine"
+    pr = "/tmp/val_pristine" if a.base == "04de7e7" else f"/tmp/val_pristine_{a.base}"
     if not os.path.isdir(pr):
-        subprocess.run(["git", "-C", "/repo", "worktree", "add", "--detach", pr, "04de7e7"], check=True, capture_output=True)
+        subprocess.run(["git", "-C", "/repo", "worktree", "add", "--detach", pr, a.base], check=True, capture_output=True)
     for t in tests:
         rel = os.path.relpath(t, wt)
         if rel not in base:
